@@ -44,6 +44,10 @@ func cmdRun(args []string) int {
 	precise := fs.Bool("poolprecise", false, "precise sync.Pool model")
 	spin := fs.Int("spin", 3, "spin cut")
 	secs := fs.Int("t", 600, "time limit (s)")
+	sto := fs.Int("solvertimeout", 60000, "z3 per-query timeout (ms) before the cvc5 integer-encoding fallback")
+	skind := fs.String("solver", "z3", "primary solver: z3 | z3-new | cvc5 | cvc5-int")
+	cclock := fs.Bool("concreteclock", false, "concrete clock")
+	mtimers := fs.Bool("manualtimers", false, "timers fire only through vrt.RunTimer")
 	prof := fs.String("cpuprofile", "", "write cpu profile")
 	fs.Parse(args)
 	if *prof != "" {
@@ -67,7 +71,7 @@ func cmdRun(args []string) int {
 		v, _ := strconv.ParseInt(a, 0, 64)
 		iargs = append(iargs, v)
 	}
-	job := &Job{Pkg: rest[0], Func: rest[1], Args: iargs, Race: *race, PoolPrecise: *precise, SpinCut: *spin, Limit: time.Duration(*secs) * time.Second}
+	job := &Job{ConcreteClock: *cclock, ManualTimers: *mtimers, SolverKind: *skind, SolverFallback: true, SolverTimeoutMs: *sto, Pkg: rest[0], Func: rest[1], Args: iargs, Race: *race, PoolPrecise: *precise, SpinCut: *spin, Limit: time.Duration(*secs) * time.Second}
 	res := RunJob(l, job, func(c *sym.Config) { c.Trace = *trace; c.TraceFilter = *filter; c.MaxWitness = 8 })
 	for _, w := range res.Witness {
 		fmt.Printf("  witness: %v\n", compactInputs(w.Inputs))
